@@ -80,9 +80,11 @@ def spaces(tier):
                 "N<=3, every edge set, deps forward/reversed, 4 kinds, par bits, jobs 1..2 (symbolic), every completion "
                 "order, at most one failure (symbolic exit status or failed launch), ambient COND_SLOT bit", depth=8,
                 goals=goals, outside=["N>4", "jobs>3"]),
-          Space("n4-cmd-j2", make(4, ("run_command",), 2, ambient_bit=False, launch=False, all_ok=True, jobs_lo=2),
-                "N=4 run_command tasks, every edge set, deps forward/reversed, par bits, --jobs 2, every completion order, all succeed",
-                depth=10)]
+          Space("n5-fanin-j2", make(5, ("run_command", "group"), 2, ambient_bit=False, launch=True, all_ok=True, jobs_lo=2),
+                "5 tasks: a group root depending on 4 run_command tasks, every edge set among the four, deps forward/reversed, "
+                "par bits, --jobs 2, every completion order, at most one failed launch, all exit 0", depth=10,
+                preset={"e0_4": True, "e1_4": True, "e2_4": True, "e3_4": True, "k0": 0, "k1": 0, "k2": 0, "k3": 0, "k4": 1,
+                        "rev4": False})]
     if tier == "thorough":
         sp.append(Space("n4-subprocess-j3", make(4, ("run_experiment", "run_command"), 3, ambient_bit=False),
                         "N=4, kinds {run_experiment, run_command}, jobs 1..3, every completion order", depth=10, tiers=("thorough",)))
